@@ -2788,3 +2788,25 @@ V('c07-revert-empty-multipart', 'C07', 'R7.14', MSGPY,
 V('c07-empty-multipart-twin-nested', 'C07', 'R7.14', MSGPY,
   "        if maintype == 'multipart' and msg.body.has_nested:",
   "        if maintype == 'multipart' and msg.body.nested:", expect='silent')
+V('c07-address-three-fields', 'C07', 'R7.15', RESPFETCH,
+  'return List([realname, Nil(), localpart, domain])',
+  'return List([realname, localpart, domain])')
+V('c07-envelope-drops-bcc', 'C07', 'R7.15', RESPFETCH,
+  '''                     self._addresses(self.cc),
+                     self._addresses(self.bcc),''',
+  '''                     self._addresses(self.cc),''')
+V('c07-text-lines-as-string', 'C07', 'R7.15', RESPFETCH,
+  '''                     Number(self.size), Number(self.lines)])''',
+  '''                     Number(self.size), String.build(self.lines)])''')
+V('c07-encoding-without-fallback', 'C07', 'R7.15', RESPFETCH,
+  '''                     String.build(self.content_transfer_encoding,
+                                  fallback=b'7BIT'),
+                     Number(self.size)])''',
+  '''                     String.build(self.content_transfer_encoding),
+                     Number(self.size)])''')
+V('c07-envelope-twin-local-fields', 'C07', 'R7.15', RESPFETCH,
+  '''        return List([datetime,
+                     String.build(self.subject),''',
+  '''        subject = String.build(self.subject)
+        return List([datetime,
+                     subject,''', expect='silent')
